@@ -26,6 +26,8 @@ import (
 	"github.com/temporalio/s2s-proxy/encryption"
 	"github.com/temporalio/s2s-proxy/proxy"
 
+	"vsim/fakeml"
+	"vsim/seam"
 	"vsim/simio"
 	"vsim/simrt"
 )
@@ -49,11 +51,13 @@ type RouteProfile struct {
 	Cleanup     bool // judge the C08 end-of-run cleanup
 	CheckC05    bool // in-system ack translation oracle (no-failure profiles)
 	BadMetadata bool // C20 in routing mode: hostile stream-open metadata next to the regular streams
+	Multi       bool // two or three proxy instances sharing a memberlist cluster; each cluster shard connects to one of them, tasks and acks for shards owned elsewhere travel over intra-proxy streams
 	BiasFaults  bool // place stream faults preferably where in-flight state exists (tasks delivered to a live target stream and not yet confirmed)
 }
 
 // RouteConfig is the per-run configuration, drawn from the tape first.
 type RouteConfig struct {
+	NInst       int
 	NA, NB      int
 	Dir         int // 0: A->B, 1: both, 2: B->A
 	NumNS       int
@@ -118,6 +122,7 @@ type tgtConn struct {
 	sentTasks   []*tgtTask  // every task the proxy has put on this stream (OnS2C), received by the target or not
 	ackTracked  []int       // len(tracked) at the emission of each ack, in order
 	rounds      []*ackRound // C05: translations the proxy made for each ack it read on this stream
+	inst        *rInst      // the proxy instance this stream is connected to
 	startedAt   int         // decision at which the proxy handler for this stream began to run
 	diedAt      int         // decision at which the stream was first seen dead (0 = alive)
 	endedAt     int         // decision at which the proxy's handler for the stream was seen to have returned
@@ -159,6 +164,19 @@ type delivery struct {
 	order   int
 }
 
+// rInst is one proxy instance of the deployment.
+type rInst struct {
+	name, addr string
+	lifetime   context.Context
+	cancel     context.CancelFunc
+	sm         proxy.ShardManager
+	outbound   adminservice.AdminServiceServer // serves cluster A
+	inbound    adminservice.AdminServiceServer // serves cluster B
+	observerA  *proxy.ReplicationStreamObserver
+	observerB  *proxy.ReplicationStreamObserver
+	startOK    bool
+}
+
 // RouteWorld implements simrt.World.
 type RouteWorld struct {
 	s    *simrt.Sim
@@ -172,6 +190,9 @@ type RouteWorld struct {
 	inbound   adminservice.AdminServiceServer // serves cluster B
 	observerA *proxy.ReplicationStreamObserver
 	observerB *proxy.ReplicationStreamObserver
+	insts     []*rInst
+	mlnet     *fakeml.Network
+	lastPP    map[string]time.Duration
 
 	shards [3][]*shardModel // [cluster][shard-1]
 	phase  int              // 0 chaos, 1 tail, 2 close
@@ -217,7 +238,10 @@ const (
 )
 
 func drawRouteConfig(s *simrt.Sim, prof RouteProfile) RouteConfig {
-	c := RouteConfig{}
+	c := RouteConfig{NInst: 1}
+	if prof.Multi {
+		c.NInst = 2 + s.Draw(2)
+	}
 	c.NA = 1 + s.Draw(4)
 	c.NB = 1 + s.Draw(4)
 	c.Dir = s.Draw(3)
@@ -308,27 +332,84 @@ func NewRouteWorld(s *simrt.Sim, prof RouteProfile) *RouteWorld {
 	w.lifetime, w.cancelAll = context.WithCancel(context.Background())
 	scc := config.ShardCountConfig{Mode: config.ShardCountRouting, LocalShardCount: int32(w.cfg.NA), RemoteShardCount: int32(w.cfg.NB)}
 	loggers := noopLoggers{}
-	w.sm = proxy.NewShardManager(nil, scc, encryption.TLSConfig{}, loggers)
-	_ = w.sm.Start(w.lifetime)
-	var smForServers proxy.ShardManager = recSM{ShardManager: w.sm, w: w}
 	toA := &adminClient{name: "toA", open: func(ctx context.Context) (adminservice.AdminService_StreamWorkflowReplicationMessagesClient, error) {
 		return w.openSource(clusterA, ctx)
 	}}
 	toB := &adminClient{name: "toB", open: func(ctx context.Context) (adminservice.AdminService_StreamWorkflowReplicationMessagesClient, error) {
 		return w.openSource(clusterB, ctx)
 	}}
-	w.observerA = proxy.NewReplicationStreamObserver(noopLoggers{}.Get(""))
-	w.observerB = proxy.NewReplicationStreamObserver(noopLoggers{}.Get(""))
-	// outbound server: serves the local cluster A; adminClient -> B, reverse -> A
-	w.outbound = proxy.NewAdminServiceProxyServer("outboundAdminService", toB, toA, proxy.AdminServiceOverrides{},
-		[]string{"outbound"}, w.observerA.ReportStreamValue, scc, proxy.LCMParameters{},
-		proxy.RoutingParameters{OverrideShardCount: scc.LocalShardCount, RoutingLocalShardCount: scc.RemoteShardCount, DirectionLabel: "outbound"},
-		loggers, smForServers, w.lifetime)
-	// inbound server: serves the remote cluster B; adminClient -> A, reverse -> B
-	w.inbound = proxy.NewAdminServiceProxyServer("inboundAdminService", toA, toB, proxy.AdminServiceOverrides{},
-		[]string{"inbound"}, w.observerB.ReportStreamValue, scc, proxy.LCMParameters{},
-		proxy.RoutingParameters{OverrideShardCount: scc.RemoteShardCount, RoutingLocalShardCount: scc.LocalShardCount, DirectionLabel: "inbound"},
-		loggers, smForServers, w.lifetime)
+	addrs := map[string]string{}
+	for i := 0; i < w.cfg.NInst; i++ {
+		addrs[fmt.Sprintf("n%d", i+1)] = fmt.Sprintf("proxy-n%d:7000", i+1)
+	}
+	if prof.Multi {
+		w.lastPP = map[string]time.Duration{}
+		w.mlnet = fakeml.NewNetwork()
+		w.mlnet.Spawn = func(name string, f func()) { s.Spawn(name, f) }
+		fakeml.Use(w.mlnet)
+		seam.Reset()
+	}
+	for i := 0; i < w.cfg.NInst; i++ {
+		in := &rInst{name: fmt.Sprintf("n%d", i+1)}
+		in.addr = addrs[in.name]
+		in.lifetime, in.cancel = w.lifetime, w.cancelAll
+		var mc *config.MemberlistConfig
+		if prof.Multi {
+			mc = &config.MemberlistConfig{Enabled: true, NodeName: in.name, BindAddr: fmt.Sprintf("10.0.0.%d", i+1), BindPort: 7946, ProxyAddresses: addrs}
+			if i > 0 {
+				mc.JoinAddrs = []string{"10.0.0.1:7946"}
+			}
+		}
+		in.sm = proxy.NewShardManager(mc, scc, encryption.TLSConfig{}, loggers)
+		var smForServers proxy.ShardManager = recSM{ShardManager: in.sm, w: w}
+		in.observerA = proxy.NewReplicationStreamObserver(noopLoggers{}.Get(""))
+		in.observerB = proxy.NewReplicationStreamObserver(noopLoggers{}.Get(""))
+		// outbound server: serves the local cluster A; adminClient -> B, reverse -> A
+		in.outbound = proxy.NewAdminServiceProxyServer("outboundAdminService", toB, toA, proxy.AdminServiceOverrides{},
+			[]string{"outbound"}, in.observerA.ReportStreamValue, scc, proxy.LCMParameters{},
+			proxy.RoutingParameters{OverrideShardCount: scc.LocalShardCount, RoutingLocalShardCount: scc.RemoteShardCount, DirectionLabel: "outbound"},
+			loggers, smForServers, w.lifetime)
+		// inbound server: serves the remote cluster B; adminClient -> A, reverse -> B
+		in.inbound = proxy.NewAdminServiceProxyServer("inboundAdminService", toA, toB, proxy.AdminServiceOverrides{},
+			[]string{"inbound"}, in.observerB.ReportStreamValue, scc, proxy.LCMParameters{},
+			proxy.RoutingParameters{OverrideShardCount: scc.RemoteShardCount, RoutingLocalShardCount: scc.LocalShardCount, DirectionLabel: "inbound"},
+			loggers, smForServers, w.lifetime)
+		w.insts = append(w.insts, in)
+		if prof.Multi {
+			in := in
+			s.Spawn("start:"+in.name, func() { _ = in.sm.Start(in.lifetime); in.startOK = true })
+		} else {
+			_ = in.sm.Start(w.lifetime)
+			in.startOK = true
+		}
+	}
+	w.sm, w.outbound, w.inbound = w.insts[0].sm, w.insts[0].outbound, w.insts[0].inbound
+	w.observerA, w.observerB = w.insts[0].observerA, w.insts[0].observerB
+	if prof.Multi {
+		// intra-proxy link: a stream opened towards a peer's proxy address terminates in that peer's real handler
+		seam.IntraClientFactory = func(target string) adminservice.AdminServiceClient {
+			return &adminClient{name: "intra->" + target, open: func(ctx context.Context) (adminservice.AdminService_StreamWorkflowReplicationMessagesClient, error) {
+				var peer *rInst
+				for _, in := range w.insts {
+					if in.addr == target {
+						peer = in
+					}
+				}
+				if peer == nil || !peer.startOK {
+					return nil, status.Error(codes.Unavailable, "peer unreachable")
+				}
+				w.nextSt++
+				st := simio.NewStream(fmt.Sprintf("intra%d->%s", w.nextSt, peer.name), w.nextSt, ctx, 0)
+				omd, _ := metadata.FromOutgoingContext(ctx)
+				s.Log("intra stream %s opened: %s", st.Name, mdSummary(omd))
+				s.Spawn("intra-handler:"+st.Name, func() {
+					err := peer.outbound.StreamWorkflowReplicationMessages(simio.ServerEnd{S: st})
+					st.ServerFinish(err)
+				})
+				return simio.ClientEnd{S: st}, nil
+			}}
+		}
+	}
 	for cl := clusterA; cl <= clusterB; cl++ {
 		for i := 1; i <= w.count(cl); i++ {
 			w.shards[cl] = append(w.shards[cl], &shardModel{cluster: cl, id: int32(i), nextID: 10, ackLevel: 0})
@@ -639,12 +720,16 @@ func (w *RouteWorld) tgtOpen(sh *shardModel) {
 	)
 	ctx, cancel := context.WithCancel(metadata.NewOutgoingContext(context.Background(), md))
 	st := simio.NewStream(fmt.Sprintf("tgt-%s#%d", sh.name(), sh.tgtIncs), w.nextSt, ctx, w.cfg.Window)
-	c := &tgtConn{sh: sh, st: st, inc: sh.tgtIncs, cancel: cancel}
+	c := &tgtConn{sh: sh, st: st, inc: sh.tgtIncs, cancel: cancel, inst: w.insts[0]}
+	if w.prof.Multi {
+		// the load balancer in front of the proxy instances picks one per connection
+		c.inst = w.insts[w.s.Draw(len(w.insts))]
+	}
 	sh.tgt = c
 	sh.allTgt = append(sh.allTgt, c)
-	srv := w.outbound
+	srv := c.inst.outbound
 	if sh.cluster == clusterB {
-		srv = w.inbound
+		srv = c.inst.inbound
 	}
 	st.OnS2C = func(m *simio.Res) {
 		if msgs := m.GetMessages(); msgs != nil {
@@ -675,7 +760,7 @@ func (w *RouteWorld) tgtOpen(sh *shardModel) {
 			c.rounds = append(c.rounds, &ackRound{w: ss.InclusiveLowWatermark, prevW: prev, nTracked: nt, delivered: map[ShardID]int64{}})
 		}
 	}
-	w.s.Log("target %s opens stream %s", sh.name(), st.Name)
+	w.s.Log("target %s opens stream %s at %s", sh.name(), st.Name, c.inst.name)
 	w.s.Spawn("handler:"+st.Name, func() {
 		c.startedAt = max(1, w.s.Stats.Decisions)
 		err := srv.StreamWorkflowReplicationMessages(simio.ServerEnd{S: st})
@@ -928,12 +1013,43 @@ func (w *RouteWorld) Actions() []simrt.Action {
 			}
 		}
 	}
+	// multi-instance deployment: memberlist traffic between the instances; cluster shards
+	// connect once every instance is up (its Start has returned)
+	up := true
+	for _, in := range w.insts {
+		if !in.startOK {
+			up = false
+		}
+	}
+	if w.mlnet != nil {
+		for _, p := range w.mlnet.PendingSteps() {
+			p := p
+			add(fmt.Sprintf("ml-deliver:%s->%s#%d", p.Kind, p.To, p.Seq), 6, false, func() { w.mlnet.Deliver(p.Seq, false) })
+		}
+		// full state exchange: at any time during the chaos phase; in the fair tail at
+		// memberlist's push/pull interval (30 s in the LAN configuration the proxy uses)
+		for i := 0; i < len(w.insts); i++ {
+			for j := i + 1; j < len(w.insts); j++ {
+				a, b := w.insts[i], w.insts[j]
+				pair := a.name + "-" + b.name
+				if !(w.mlnet.Knows(a.name, b.name) && w.mlnet.Knows(b.name, a.name)) {
+					continue
+				}
+				if w.phase == 0 || (w.phase == 1 && now-w.lastPP[pair] >= 30*time.Second) {
+					add("pushpull:"+pair, 1, false, func() {
+						w.lastPP[pair] = w.s.Now()
+						w.mlnet.PushPull(a.name, b.name)
+					})
+				}
+			}
+		}
+	}
 	for _, sh := range w.allShards() {
 		sh := sh
 		// --- target role ---
 		c := sh.tgt
 		canOpen := c == nil || c.handlerDone || (w.prof.Churn && c.st.Dead())
-		if closing {
+		if closing || !up {
 			canOpen = false
 		}
 		if canOpen && (tail || w.s.Stats.Decisions >= w.cfg.LateOpen[sh.name()]) {
@@ -1172,6 +1288,11 @@ func (w *RouteWorld) endChecks() {
 	if !w.prof.CheckC02End || w.anyFault {
 		return
 	}
+	if w.prof.Multi && !w.tailOK {
+		// the tail did not complete: that is the liveness clause's finding; "never reached a
+		// target" cannot be told from "not yet" here
+		return
+	}
 	for _, sh := range w.allShards() {
 		for _, t := range sh.log {
 			k := taskKey{sh.sid(), t.id}
@@ -1381,7 +1502,10 @@ func (r recSM) DeliverAckToShardOwner(src ShardID, ra *proxy.RoutedAck, sc chann
 	ok := r.ShardManager.DeliverAckToShardOwner(src, ra, sc, lg, ack, fwd)
 	r.w.s.Log("translate: stream of %s -> source %s value %d delivered=%v", sidStr(ra.TargetShard), sidStr(src), ack, ok)
 	if ok {
-		if tsh := r.w.shard(ra.TargetShard); tsh != nil && tsh.tgt != nil {
+		// a translation belongs to the target stream whose own ack loop made it; the same ack
+		// passes through this call once more on the source's instance when it has travelled over
+		// an intra-proxy stream (the caller is then that stream's handler), which is not a translation
+		if tsh := r.w.shard(ra.TargetShard); tsh != nil && tsh.tgt != nil && callerIncarnation() == tsh.tgt.st.Name {
 			if n := len(tsh.tgt.rounds); n > 0 {
 				tsh.tgt.rounds[n-1].delivered[src] = ack
 			}
